@@ -60,6 +60,8 @@ impl BackTracking for DSetBackTracking {
                     dset.set(i, d, e);
 
                     if !check_and_apply_implications(&mut dset, i, d) {
+                        #[cfg(feature = "verif")]
+                        crate::verif_hooks::hit("dsets_gen.contradiction");
                         continue;
                     }
 
@@ -71,6 +73,8 @@ impl BackTracking for DSetBackTracking {
                             Self::State { dset, is_remap_start, next_i_d }
                         );
                     }
+                    #[cfg(feature = "verif")]
+                    crate::verif_hooks::hit("dsets_gen.candidate");
                 }
             }
         }
@@ -145,6 +149,8 @@ fn check_and_apply_implications(
                 if gap == 0 && head != tail {
                     return false;
                 } else if gap == 1 {
+                    #[cfg(feature = "verif")]
+                    crate::verif_hooks::hit("dsets_gen.implication");
                     dset.set(k, head, tail);
                     queue.push_back((k, head));
                 }
@@ -197,6 +203,8 @@ fn check_canonicity(
             let diff = compare_renumbered_from(ds, d, n2o, o2n);
 
             if diff < 0 {
+                #[cfg(feature = "verif")]
+                crate::verif_hooks::hit("dsets_gen.noncanonical");
                 return false;
             } else if diff > 0 {
                 is_remap_start[d] = false;
